@@ -362,6 +362,14 @@ def panic_audit(ctx, rule, fns, exceptions=None):
                 construct = name
             n += 1
             why = exceptions.get((fn.skey, construct))
+            if not why and "Option::" in ck and t["args"]:
+                # the same site named by the field the option is read from (`self.block_cursor.as_mut().unwrap()`): the producer of the
+                # value may sit in a helper, the field does not move
+                for (_o, fld) in sorted(P.origin_fields(fn, t["args"][0])):
+                    alt = "%s(.%s)" % (name, fld)
+                    if exceptions.get((fn.skey, alt)):
+                        construct, why = alt, exceptions[(fn.skey, alt)]
+                        break
             if why:
                 used.add((fn.skey, construct))
                 ctx.exception(rule, fn.skey, construct, why)
